@@ -33,6 +33,24 @@ pub fn cleanup_scratch_of(pid: u32) {
     }
 }
 
+/// remove scratch directories of simulator processes that no longer exist (killed batches,
+/// replays of traces that crash the process)
+pub fn sweep_stale_scratch() {
+    let root = scratch_root();
+    let Some(base) = root.parent() else { return };
+    let Ok(rd) = std::fs::read_dir(base) else { return };
+    for ent in rd.flatten() {
+        let name = ent.file_name().to_string_lossy().to_string();
+        if let Some(pid) = name.strip_prefix("pocket-sim.").and_then(|p| p.parse::<i32>().ok()) {
+            // signal 0: existence test only
+            let alive = unsafe { libc::kill(pid, 0) } == 0 || std::io::Error::last_os_error().raw_os_error() == Some(libc::EPERM);
+            if !alive {
+                let _ = std::fs::remove_dir_all(ent.path());
+            }
+        }
+    }
+}
+
 pub fn cleanup_scratch_root() {
     let _ = std::fs::remove_dir_all(scratch_root());
 }
